@@ -223,11 +223,17 @@ CORE = ["skepticoin/consensus.py", "skepticoin/coinstate.py", "skepticoin/balanc
         "skepticoin/params.py"]
 
 
+NET = ["skepticoin/networking/remote_peer.py", "skepticoin/networking/local_peer.py", "skepticoin/networking/messages.py",
+       "skepticoin/networking/disk_interface.py", "skepticoin/mining.py"]
+
+
 def gen(outdir, seed, scale):
     rng = random.Random(seed)
-    if scale < 0:       # every site of the core files
+    if scale < 0:       # every site of the core files (-1) or of the networking files (-2)
+        chosen = CORE if scale == -1 else NET
         for f in list(QUOTA):
-            QUOTA[f] = 10 ** 6 if f in CORE else 0
+            QUOTA[f] = 10 ** 6 if f in chosen else 0
+        scale = 1
     os.makedirs(os.path.join(outdir, "m"), exist_ok=True)
     out = []
     for f, quota in QUOTA.items():
